@@ -16,6 +16,7 @@ import (
 	"github.com/tucats/ego/internal/defs"
 	"github.com/tucats/ego/internal/router"
 	"github.com/tucats/ego/internal/server/services"
+	"github.com/tucats/ego/internal/util/validate"
 	"github.com/tucats/ego/internal/verifrt/report"
 )
 
@@ -159,6 +160,7 @@ func serviceDirectiveLines(text string) []string {
 var builderAlphabet = []string{
 	"Authentication(true)", "Authentication(false)", "Permissions(a)", "Permissions(b)",
 	"LightWeight(true)", "LightWeight(false)", "CanAuthenticate(true)", "CanAuthenticate(false)", "Credentials(true)",
+	"ValidateUsing(@credentials)",
 }
 
 func applyCall(r *router.Route, call string) {
@@ -181,6 +183,8 @@ func applyCall(r *router.Route, call string) {
 		r.CanAuthenticate(false)
 	case "Credentials(true)":
 		r.Credentials(true)
+	case "ValidateUsing(@credentials)":
+		r.ValidateUsing("@credentials")
 	default:
 		report.Fatal("unknown builder call %q", call)
 	}
@@ -341,6 +345,53 @@ func directiveItems(scratch, tag string) []*item {
 	}
 
 	return out
+}
+
+// payloadCandidates are request bodies tried against a route's payload
+// validations (with the server's own validator) to find one that passes. None of
+// them carries credentials that authenticate anybody.
+var payloadCandidates = []string{
+	`{"name":"vc20new","password":"pw-c20-new","permissions":["ego.logon"]}`,
+	`{"keep":3,"loggers":{"auth":true}}`,
+	`{"name":"vc20dsn","provider":"sqlite","database":"vc20.db"}`,
+	`{"dsn":"vc20dsn","user":"vplain","actions":["read"]}`,
+	`{"items":[{"dsn":"vc20dsn","user":"vplain","actions":["read"]}]}`,
+	`[{"operation":"select","table":"t1"}]`,
+	`{"username":"vnobody","password":"wrong-password"}`,
+	`[]`,
+	`{}`,
+}
+
+var payloadCache = map[string]string{}
+
+// passingPayload returns a body that the route's payload validation accepts
+// (the route accepts a body that satisfies any one of its validations), or "".
+func passingPayload(f router.VerifC20Flags) string {
+	if len(f.Validations) == 0 {
+		return ""
+	}
+
+	key := strings.Join(f.Validations, "|")
+	if p, ok := payloadCache[key]; ok {
+		return p
+	}
+
+	found := ""
+
+search:
+	for _, c := range payloadCandidates {
+		for _, v := range f.Validations {
+			if validate.Validate([]byte(c), v) == nil {
+				found = c
+
+				break search
+			}
+		}
+	}
+
+	payloadCache[key] = found
+
+	return found
 }
 
 // concretePath turns a route endpoint into a request path that selects it.
